@@ -38,6 +38,10 @@ More information:
 Traceback (most recent call last):
     ...
 InvalidChecksum: ...
+>>> validate('213800KUD8LAJWSQ9DAD')  # check digits are numeric
+Traceback (most recent call last):
+    ...
+InvalidFormat: ...
 """
 
 from stdnum.exceptions import *
